@@ -12,6 +12,9 @@ anchor is located by a name that the rewrite changed (tolerated, but listed).
   --mode swapif    `if a: X else: Y` -> `if not a: Y else: X`, same for conditional expressions
   --mode noise     an unused local and a trivially true assert at the top of every function
   --mode extract   bind the value of every `return <call>` / long argument to a fresh local first
+  --mode match     every if / elif chain of `isinstance(<name>, ..)` tests (two or more arms) -> a `match` statement with class patterns
+  --mode walrus    `x = e` directly followed by `if x:` / `if x is (not) None:` -> `if (x := e):` ...
+  --mode loop      `x = [f(a) for a in it]` (one generator) -> `x = []` + a for loop with append
 
 usage: alpha.py [--mode rename|reformat|extract] [--tests] [--keep]
 """
@@ -130,6 +133,154 @@ class _SwapIf(ast.NodeTransformer):
         return ast.IfExp(test=nt, body=node.orelse, orelse=node.body)
 
 
+def _isinstance_arm(test):
+    """(subject name, [class expressions]) for `isinstance(<Name>, C | D)` / `isinstance(<Name>, (C, D))`, else None"""
+    if not (isinstance(test, ast.Call) and isinstance(test.func, ast.Name) and test.func.id == "isinstance" and len(test.args) == 2 and not test.keywords):
+        return None
+    subj, cl = test.args
+    if not isinstance(subj, ast.Name):
+        return None
+
+    def classes(e):
+        if isinstance(e, ast.BinOp) and isinstance(e.op, ast.BitOr):
+            a, b = classes(e.left), classes(e.right)
+            return None if a is None or b is None else a + b
+        if isinstance(e, ast.Tuple):
+            out = []
+            for x in e.elts:
+                c = classes(x)
+                if c is None:
+                    return None
+                out += c
+            return out
+        if isinstance(e, (ast.Name, ast.Attribute)):
+            return [e]
+        return None
+
+    cs = classes(cl)
+    return None if not cs else (subj.id, cs)
+
+
+class _ToMatch(ast.NodeTransformer):
+    def __init__(self):
+        self.n = 0
+
+    def visit_If(self, node):
+        self.generic_visit(node)
+        if getattr(node, "_is_elif", False):
+            return node
+        arms = []
+        cur = node
+        subj = None
+        while True:
+            a = _isinstance_arm(cur.test)
+            if a is None or (subj is not None and a[0] != subj):
+                return node
+            subj = a[0]
+            arms.append((a[1], cur.body))
+            if len(cur.orelse) == 1 and isinstance(cur.orelse[0], ast.If):
+                cur = cur.orelse[0]
+                continue
+            tail = cur.orelse
+            break
+        if len(arms) < 2:
+            return node
+        # the subject must not be re-bound inside the arms (a match evaluates it once - so does the chain, by name)
+        cases = []
+        for cls_list, body in arms:
+            pats = [ast.MatchClass(cls=c, patterns=[], kwd_attrs=[], kwd_patterns=[]) for c in cls_list]
+            pat = pats[0] if len(pats) == 1 else ast.MatchOr(patterns=pats)
+            cases.append(ast.match_case(pattern=pat, guard=None, body=body))
+        if tail:
+            cases.append(ast.match_case(pattern=ast.MatchAs(pattern=None, name=None), guard=None, body=tail))
+        self.n += 1
+        return ast.Match(subject=ast.Name(id=subj, ctx=ast.Load()), cases=cases)
+
+
+class _Walrus(ast.NodeTransformer):
+    def __init__(self):
+        self.n = 0
+
+    def _block(self, stmts):
+        out = []
+        i = 0
+        while i < len(stmts):
+            st = stmts[i]
+            nxt = stmts[i + 1] if i + 1 < len(stmts) else None
+            if (
+                isinstance(st, ast.Assign) and len(st.targets) == 1 and isinstance(st.targets[0], ast.Name) and isinstance(nxt, ast.If)
+                and not any(isinstance(x, (ast.NamedExpr, ast.Yield, ast.Await, ast.Lambda)) for x in ast.walk(st.value))
+            ):
+                name = st.targets[0].id
+                t = nxt.test
+                ne = ast.NamedExpr(target=ast.Name(id=name, ctx=ast.Store()), value=st.value)
+                new_test = None
+                if isinstance(t, ast.Name) and t.id == name:
+                    new_test = ne
+                elif (isinstance(t, ast.Compare) and isinstance(t.left, ast.Name) and t.left.id == name and len(t.ops) == 1 and isinstance(t.ops[0], (ast.Is, ast.IsNot))
+                      and isinstance(t.comparators[0], ast.Constant) and t.comparators[0].value is None):
+                    new_test = ast.Compare(left=ne, ops=t.ops, comparators=t.comparators)
+                if new_test is not None:
+                    self.n += 1
+                    out.append(ast.If(test=new_test, body=nxt.body, orelse=nxt.orelse))
+                    i += 2
+                    continue
+            out.append(st)
+            i += 1
+        return out
+
+    def generic_visit(self, node):
+        super().generic_visit(node)
+        if isinstance(node, ast.ClassDef) or isinstance(node, ast.Module):
+            return node  # (a walrus at class / module level would change what is a class attribute)
+        for f in ("body", "orelse", "finalbody"):
+            b = getattr(node, f, None)
+            if isinstance(b, list) and b and isinstance(b[0], ast.stmt):
+                setattr(node, f, self._block(b))
+        return node
+
+
+def comp_to_loop(tree) -> int:
+    n = 0
+    for fn in [x for x in ast.walk(tree) if isinstance(x, (ast.FunctionDef, ast.AsyncFunctionDef))]:
+        in_comp = {id(x) for c in _own_nodes(fn) if isinstance(c, (ast.ListComp, ast.SetComp, ast.DictComp, ast.GeneratorExp)) for g in c.generators for x in ast.walk(g.target)}
+        bound = {x.id for x in _own_nodes(fn) if isinstance(x, ast.Name) and isinstance(x.ctx, ast.Store) and id(x) not in in_comp} | {a.arg for a in fn.args.args + fn.args.kwonlyargs}
+        # names read anywhere in the function outside this comprehension would see the leaked loop variable
+        all_loads = [x for x in _own_nodes(fn) if isinstance(x, ast.Name) and isinstance(x.ctx, ast.Load)]
+        used_in_nested = {x.id for d in _own_nodes(fn) if isinstance(d, (ast.Lambda, ast.FunctionDef)) for x in ast.walk(d) if isinstance(x, ast.Name)}
+        for owner in [fn] + [x for x in _own_nodes(fn) if isinstance(x, (ast.If, ast.For, ast.While, ast.With, ast.Try))]:
+            for f in ("body", "orelse", "finalbody"):
+                blk = getattr(owner, f, None)
+                if not (isinstance(blk, list) and blk and isinstance(blk[0], ast.stmt)):
+                    continue
+                out = []
+                for st in blk:
+                    v = st.value if isinstance(st, ast.Assign) and len(st.targets) == 1 and isinstance(st.targets[0], ast.Name) else None
+                    if isinstance(v, ast.ListComp) and len(v.generators) == 1 and not v.generators[0].is_async:
+                        g = v.generators[0]
+                        tnames = {x.id for x in ast.walk(g.target) if isinstance(x, ast.Name)}
+                        tgt = st.targets[0].id
+                        # the loop variable becomes a local of the function: it must not collide with one, and the target must not
+                        # be read by the comprehension itself
+                        reads = {x.id for x in ast.walk(v) if isinstance(x, ast.Name) and isinstance(x.ctx, ast.Load)}
+                        inside = {id(x) for x in ast.walk(v)}
+                        read_outside = {x.id for x in all_loads if id(x) not in inside}
+                        if tnames & (bound | used_in_nested | read_outside) or tgt in reads or tgt in tnames or any(isinstance(x, (ast.NamedExpr, ast.Lambda, ast.ListComp, ast.GeneratorExp, ast.SetComp, ast.DictComp)) for x in ast.walk(v.elt)):
+                            out.append(st)
+                            continue
+                        body = [ast.Expr(value=ast.Call(func=ast.Attribute(value=ast.Name(id=tgt, ctx=ast.Load()), attr="append", ctx=ast.Load()), args=[v.elt], keywords=[]))]
+                        for cond in reversed(g.ifs):
+                            body = [ast.If(test=cond, body=body, orelse=[])]
+                        out.append(ast.Assign(targets=[ast.Name(id=tgt, ctx=ast.Store())], value=ast.List(elts=[], ctx=ast.Load()), lineno=st.lineno, col_offset=0))
+                        out.append(ast.For(target=g.target, iter=g.iter, body=body, orelse=[], lineno=st.lineno, col_offset=0))
+                        bound |= tnames
+                        n += 1
+                    else:
+                        out.append(st)
+                setattr(owner, f, out)
+    return n
+
+
 def _mark_elifs(tree):
     for n in ast.walk(tree):
         if isinstance(n, ast.If) and len(n.orelse) == 1 and isinstance(n.orelse[0], ast.If):
@@ -159,13 +310,24 @@ def transform(src: str, mode: str):
         t = _Extract()
         tree = t.visit(tree)
         n = t.n
+    elif mode == "match":
+        _mark_elifs(tree)
+        t = _ToMatch()
+        tree = t.visit(tree)
+        n = t.n
+    elif mode == "walrus":
+        t = _Walrus()
+        tree = t.visit(tree)
+        n = t.n
+    elif mode == "loop":
+        n = comp_to_loop(tree)
     ast.fix_missing_locations(tree)
     return ast.unparse(tree) + "\n", n
 
 
 def main():
     ap = argparse.ArgumentParser()
-    ap.add_argument("--mode", default="rename", choices=["rename", "reformat", "extract", "swapif", "noise"])
+    ap.add_argument("--mode", default="rename", choices=["rename", "reformat", "extract", "swapif", "noise", "match", "walrus", "loop"])
     ap.add_argument("--tests", action="store_true", help="run the pinned suite on the rewritten copy first")
     ap.add_argument("--keep", action="store_true")
     a = ap.parse_args()
